@@ -90,6 +90,8 @@ def get_repo():
     data0 = json.load(open(out))
     n_loops = canon.desugar_loops(data0)  # for_each / try_for_each statements read as `for` loops
     canon.inline_local_closures(data0)  # calls of locally named closures read as the closure's body in place
+    if os.path.exists(canon.TABLE):
+        canon.expand_new_aliases(data0, set(json.load(open(canon.TABLE)).get("__aliases__", [])))  # type aliases added since the reference tree
     _repo = ast.Repo(out, REPO, _data=data0)
     # private types that were merely renamed (same module, same fields) are read under their reference names, like functions below
     type_renames = {}
